@@ -211,6 +211,13 @@ def extract(F, c):
                         sep = [x['value'] for x in walk(jn[0]['args'][1]) if x['k'] == 'Literal' and x.get('lit') == 'Str']
                         pending[q['var']] = (rg, chain if len(chain) > 1 else chain[0], sep, dict(cx.names), dict(cx.defs), init.get('loc'))
                         continue
+                    i0_ = strip(init)
+                    if i0_['k'] == 'Call' and callee_decl(i0_) == 'std::iter::Iterator::collect' and (i0_.get('ty') or {}).get('s') == 'std::string::String':
+                        sw = strip(i0_['args'][0])
+                        if sw['k'] == 'Call' and (callee_name(sw) or '').endswith('str::<impl str>::split_whitespace'):
+                            # the pieces between runs of (Unicode) whitespace glued together: the text without its whitespace
+                            filters.append((q['name'], '#split_whitespace', q['var']))
+                            continue
                     if flt:
                         cl = [x for x in walk(flt[0]['args'][1]) if x['k'] == 'Closure']
                         filters.append((q['name'], canon(cl[0]['def']) if cl else None, q['var']))
@@ -568,6 +575,7 @@ def rule_sudoku(F, R):
     # whitespace is ignored: the input is filtered by !is_whitespace before indexing
     okf = False
     for name, cl, _var in filters:
+        if cl == '#split_whitespace' and name == 'puzzle_input': okf = True
         ct = c.ithir.get(cl) if cl else None
         if ct is not None:
             b = strip(ct['body'])
